@@ -32,6 +32,8 @@ type World struct {
 	funcs    map[string]*FuncInfo
 	byObj    map[*types.Func]*FuncInfo
 	ordMu    sync.Mutex
+	patOnce  sync.Once
+	patSpecNames map[string]bool
 	loopOrds map[*ast.FuncDecl]map[token.Pos]string
 	cs       *ContractSet
 	opaque   map[string]bool
